@@ -77,16 +77,20 @@ def parse_obs(s):
                     pos += 1
                     continue
                 items.append(parse())
-        if c == 's':
+        if c == '{':
             pos += 1
-            j = pos
-            while j < n and (s[j].isdigit() or s[j] == '.'):
-                j += 1
-            body = s[pos:j]
-            pos = j
-            if body == '':
-                return ''
-            return ''.join(chr(int(x)) for x in body.split('.'))
+            out = []
+            while True:
+                j = pos
+                while s[j] != '}' and s[j] != '\\':
+                    j += 1
+                out.append(s[pos:j])
+                if s[j] == '}':
+                    pos = j + 1
+                    return ''.join(out)
+                k = s.index(';', j)
+                out.append(chr(int(s[j + 1:k])))
+                pos = k + 1
         j = pos
         if s[j] == '-':
             j += 1
